@@ -445,6 +445,24 @@ def _load(modname):
     return m
 
 
+def translator_errors():
+    """run both source translators in-process on this run's source tree: the list of their aborts"""
+    terrs = []
+    rd_src = os.path.join(C.SRC, "dateutil", "relativedelta.py")
+    try:
+        _t, e1 = _load("gen_rd_methods").translate(open(rd_src).read(),
+                                                   open(os.path.join(C.SRC, "dateutil", "_common.py")).read())
+        terrs += ["gen_rd_methods %s: %s" % e for e in e1]
+    except Exception as ex:
+        terrs.append("gen_rd_methods source: %s" % ex)
+    try:
+        _t, e2 = _load("gen_rd_add").translate(open(rd_src).read())
+        terrs += ["gen_rd_add %s: %s" % e for e in e2]
+    except Exception as ex:
+        terrs.append("gen_rd_add source: %s" % ex)
+    return terrs
+
+
 def private_gen_check(cid):
     """Re-check the <cid>_gen_* obligations against the translation of THIS run's source (VERIF_REPO) in a
     private directory (logical path P): coq/gen/ is shared with every concurrently running check, each of
